@@ -5,6 +5,7 @@ import (
 	"go/constant"
 	"go/token"
 	"go/types"
+	"io"
 	"sort"
 	"strings"
 
@@ -24,7 +25,21 @@ func (p *Prog) Pkg(suffix string) *ssa.Package {
 
 // Func finds a function of the module: recv=="" for package-level functions,
 // otherwise the (pointer or value) receiver's type name.
+// FuncFallback, when set, is asked for a function that Func does not find under its name (rules/rolefallback.go:
+// unexported functions found by what they are).
+var FuncFallback func(p *Prog, pkgSuffix, recv, name string) *ssa.Function
+
 func (p *Prog) Func(pkgSuffix, recv, name string) *ssa.Function {
+	if f := p.funcByName(pkgSuffix, recv, name); f != nil {
+		return f
+	}
+	if FuncFallback != nil {
+		return FuncFallback(p, pkgSuffix, recv, name)
+	}
+	return nil
+}
+
+func (p *Prog) funcByName(pkgSuffix, recv, name string) *ssa.Function {
 	sp := p.Pkg(pkgSuffix)
 	if sp == nil {
 		return nil
@@ -33,6 +48,9 @@ func (p *Prog) Func(pkgSuffix, recv, name string) *ssa.Function {
 		return sp.Func(name)
 	}
 	t := sp.Type(recv)
+	if t == nil {
+		t = p.typeByAlias(sp, recv)
+	}
 	if t == nil {
 		return nil
 	}
@@ -59,10 +77,31 @@ func (p *Prog) Named(pkgSuffix, name string) *types.Named {
 	}
 	t := sp.Type(name)
 	if t == nil {
+		t = p.typeByAlias(sp, name)
+	}
+	if t == nil {
 		return nil
 	}
 	n, _ := t.Type().(*types.Named)
 	return n
+}
+
+// typeByAlias finds the type of sp whose reference name is name.
+func (p *Prog) typeByAlias(sp *ssa.Package, name string) *ssa.Type {
+	var found *ssa.Type
+	for _, m := range sp.Members {
+		tn, ok := m.(*ssa.Type)
+		if !ok {
+			continue
+		}
+		if n, ok := tn.Type().(*types.Named); ok && n.Obj().Name() != name && TypeName(n) == name {
+			if found != nil {
+				return nil
+			}
+			found = tn
+		}
+	}
+	return found
 }
 
 // Const returns the integer value of a package-level constant.
@@ -94,7 +133,22 @@ func Short(fn *ssa.Function) string {
 	if fn == nil {
 		return "<nil>"
 	}
-	return strings.ReplaceAll(fn.String(), ModulePath+"/", "")
+	return Canon(strings.ReplaceAll(fn.String(), ModulePath+"/", ""))
+}
+
+// Canon writes the name of a method of a module type without the pointer star — "(pkg/x.T).M" for both
+// func (t T) M and func (t *T) M — so that turning a value receiver into a pointer receiver (or back) does not
+// change the name a rule knows the method by. Library methods keep their form.
+func Canon(name string) string {
+	if !strings.HasPrefix(name, "(") || len(name) < 2 || name[1] != '*' {
+		return name
+	}
+	for _, pre := range []string{"pkg/", "internal/", "cmd/"} {
+		if strings.HasPrefix(name[2:], pre) {
+			return "(" + name[2:]
+		}
+	}
+	return name
 }
 
 // Outer returns the outermost enclosing function.
@@ -124,10 +178,31 @@ func TypeIs(t types.Type, pkgPath, name string) bool {
 		return false
 	}
 	o := n.Obj()
-	if o.Name() != name || o.Pkg() == nil {
+	if o.Pkg() == nil || (o.Name() != name && TypeName(n) != name) {
 		return false
 	}
 	return o.Pkg().Path() == pkgPath || o.Pkg().Path() == ModulePath+"/"+pkgPath
+}
+
+// TypeAlias, when set, gives the reference name of a named type of the module that is not known under that name any
+// more (rules/rolefallback.go: unexported types — and types un-exported since — recognised by what they are).
+var TypeAlias func(n *types.Named) string
+
+var typeNameCache = map[*types.Named]string{}
+
+// TypeName is the name rules know the type by: its own, or its reference name.
+func TypeName(n *types.Named) string {
+	if s, ok := typeNameCache[n]; ok {
+		return s
+	}
+	s := n.Obj().Name()
+	if TypeAlias != nil && n.Obj().Pkg() != nil && strings.HasPrefix(n.Obj().Pkg().Path(), ModulePath) {
+		if a := TypeAlias(n); a != "" {
+			s = a
+		}
+	}
+	typeNameCache[n] = s
+	return s
 }
 
 // ---------------------------------------------------------------------------
@@ -159,15 +234,15 @@ func CalleeName(c *ssa.CallCommon) string {
 
 // IsCall reports whether instr is a call (plain, go or defer) to the named
 // target; names are matched after stripping the module prefix, so
-// "(*pkg/scheduler.Stage).ReadStatus" works.
+// "(pkg/scheduler.Stage).ReadStatus" works.
 func IsCallTo(instr ssa.Instruction, names ...string) (*ssa.CallCommon, bool) {
 	ci, ok := instr.(ssa.CallInstruction)
 	if !ok {
 		return nil, false
 	}
-	n := strings.ReplaceAll(CalleeName(ci.Common()), ModulePath+"/", "")
+	n := Canon(strings.ReplaceAll(CalleeName(ci.Common()), ModulePath+"/", ""))
 	for _, want := range names {
-		if n == want {
+		if n == Canon(want) {
 			return ci.Common(), true
 		}
 	}
@@ -189,9 +264,9 @@ func IsCallTo(instr ssa.Instruction, names ...string) (*ssa.CallCommon, bool) {
 				}
 			}
 			if len(impls) == 1 {
-				in := strings.ReplaceAll(impls[0].String(), ModulePath+"/", "")
+				in := Canon(strings.ReplaceAll(impls[0].String(), ModulePath+"/", ""))
 				for _, want := range names {
-					if in == want {
+					if in == Canon(want) {
 						return &ssa.CallCommon{Value: impls[0], Args: append([]ssa.Value{cc.Value}, cc.Args...)}, true
 					}
 				}
@@ -207,7 +282,7 @@ var CurrentProg *Prog
 
 // ShortCallee is CalleeName without the module prefix.
 func ShortCallee(c *ssa.CallCommon) string {
-	return strings.ReplaceAll(CalleeName(c), ModulePath+"/", "")
+	return Canon(strings.ReplaceAll(CalleeName(c), ModulePath+"/", ""))
 }
 
 // Callees resolves the module functions a call may reach: the static callee,
@@ -650,7 +725,90 @@ func fieldName(t types.Type, i int) string {
 	if !ok || i >= st.NumFields() {
 		return fmt.Sprintf("#%d", i)
 	}
+	if alias := fieldAlias(Deref(t), st, i); alias != "" {
+		return alias
+	}
 	return st.Field(i).Name()
+}
+
+// fieldAlias: rules name fields of module structs by the names of the reference tree ("TaskRunner.cleanupList").
+// An unexported field that was renamed is still recognised by what it is: when its type is unique among the
+// fields of its struct, the reference tree had a field of that type in the struct of the same name, and no field of
+// the struct carries the reference name any more, the field is reported under the reference name.
+func fieldAlias(t types.Type, st *types.Struct, i int) string {
+	named, ok := t.(*types.Named)
+	if !ok || named.Obj().Pkg() == nil || !strings.HasPrefix(named.Obj().Pkg().Path(), ModulePath) {
+		return ""
+	}
+	f := st.Field(i)
+	if f.Exported() || f.Embedded() {
+		return ""
+	}
+	key, unique := fieldTableKey(named, st, i)
+	if !unique {
+		return ""
+	}
+	ref, ok := FieldTable[key]
+	if !ok || ref == f.Name() {
+		return ""
+	}
+	for j := 0; j < st.NumFields(); j++ {
+		if st.Field(j).Name() == ref {
+			return ""
+		}
+	}
+	return ref
+}
+
+func fieldTableKey(named *types.Named, st *types.Struct, i int) (string, bool) {
+	ts := strings.ReplaceAll(st.Field(i).Type().String(), ModulePath+"/", "")
+	n := 0
+	for j := 0; j < st.NumFields(); j++ {
+		if strings.ReplaceAll(st.Field(j).Type().String(), ModulePath+"/", "") == ts {
+			n++
+		}
+	}
+	pkg := strings.TrimPrefix(strings.TrimPrefix(named.Obj().Pkg().Path(), ModulePath), "/")
+	return pkg + "." + TypeName(named) + "|" + ts, n == 1
+}
+
+// DumpFieldTable prints the reference table for the loaded tree as Go source.
+func DumpFieldTable(p *Prog, w io.Writer) {
+	var lines []string
+	for _, pkg := range p.SSA.AllPackages() {
+		if pkg.Pkg == nil || !strings.HasPrefix(pkg.Pkg.Path(), ModulePath) {
+			continue
+		}
+		for _, m := range pkg.Members {
+			tn, ok := m.(*ssa.Type)
+			if !ok {
+				continue
+			}
+			named, ok := tn.Type().(*types.Named)
+			if !ok {
+				continue
+			}
+			st, ok := named.Underlying().(*types.Struct)
+			if !ok {
+				continue
+			}
+			for i := 0; i < st.NumFields(); i++ {
+				f := st.Field(i)
+				if f.Exported() || f.Embedded() {
+					continue
+				}
+				if key, unique := fieldTableKey(named, st, i); unique {
+					lines = append(lines, fmt.Sprintf("\t%q: %q,", key, f.Name()))
+				}
+			}
+		}
+	}
+	sort.Strings(lines)
+	fmt.Fprintln(w, "package an\n\n// Code generated by `taskverif -dump-field-table -root /repo`; the reference names of the unexported struct\n// fields whose type is unique within their struct (see fieldAlias).\nvar FieldTable = map[string]string{")
+	for _, l := range lines {
+		fmt.Fprintln(w, l)
+	}
+	fmt.Fprintln(w, "}")
 }
 
 // AccessPath decomposes v (an address or a loaded value) into a root and the
